@@ -7,7 +7,8 @@ WT=/tmp/mc_${ID}_$$
 git -C /repo worktree add -q "$WT" HEAD || exit 2
 trap 'git -C /repo worktree remove --force "$WT" >/dev/null 2>&1; rm -rf "$WT"' EXIT
 if ! git -C "$WT" apply "$PATCH"; then echo "PATCH DOES NOT APPLY"; exit 2; fi
-cd /verif && VERIF_REPO="$WT" ./check "$ID" "$@" 2>&1 | tail -${TAIL:-15}
+# private copy of the Lean project (sources + build cache) and facts: the trial never touches the shared ones
+FR=/dev/shm/vtrial.$ID.$$; mkdir -p "$FR/facts"; cp -a /verif/lean "$FR/lean"
+trap 'git -C /repo worktree remove --force "$WT" >/dev/null 2>&1; rm -rf "$WT" "$FR"' EXIT
+cd /verif && VERIF_FACTROOT="$FR" VERIF_REPO="$WT" ./check "$ID" "$@" 2>&1 | tail -${TAIL:-15}
 echo "exit=${PIPESTATUS[0]}"
-# restore facts for the real tree
-lid=$(echo "$ID" | tr A-Z a-z); (cd /verif/extract && go build -o /tmp/extract_$$ main.go ${lid}*.go && VERIF_ROOT=/verif /tmp/extract_$$ "$ID" /repo >/dev/null 2>&1; rm -f /tmp/extract_$$)
